@@ -17,6 +17,9 @@ Call-site facts (what `factor_impl` guarantees about the argument of `rho`): `No
 (`trial_divided_noSmall`, threaded through the recursion in Lemmas/FactorClosed2.lean), hence odd,
 `≥ 211`, and below `2^64 - 16` when it fits a word (`C03Rho.noSmall_below_top`): the domain of
 `C03Rho.rho_no_panic_call_site`. After a `None` of `pp` the argument is not a square (`pp_none_not_tried_power`).
+`RhoModel` / `PerfectPowerModel` read a model panic as `None` (`.join`); `rho_call_sites_total` (the model returns
+normally on EVERY `RhoGuard` argument, whatever the answer), `rho_join_harmless`, `pp_join_harmless` and
+`rho_model_exact_on_guard` show that this reading never applies at a call site.
 Tie to the code: both functions are deterministic; every real `factor` run of the C01 stream re-asks its
 recorded `pp` and `rho` answers to the models (follow-ups of props/c01.py), and `rho` / `rho_semiprime` have a
 direct K stream (ops `rho`, `rho_semiprime`).
